@@ -91,9 +91,9 @@ def selftest_trace(ctx, keep):
         for l in lines:
             f.write(json.dumps(l) + "\n")
     _, bad, _ = ctx.tlc_trace("Trace_" + MODULE, "Trace_Drawdown.cfg", p)
-    if bad != [target]:
-        raise vlib.ToolError("trace self-test: corrupted line %d, Trace_Drawdown rejected %s" % (target, bad))
-    ctx.cov.setdefault("binding_selftests", []).append({"trace": "cur.start + 1 at line %d" % target, "rejected_lines": bad})
+    if target not in bad:
+        raise vlib.ToolError("trace self-test: corrupted line %d was accepted by Trace_Drawdown (rejected: %s)" % (target, bad[:10]))
+    ctx.cov.setdefault("binding_selftests", []).append({"trace": "cur.start + 1 at line %d" % target, "rejected_lines": bad[:10]})
     ctx.cov["tlc_runs"][-1]["selftest"] = True
     ctx.cov["trace_events_validated"] -= len(lines)
 
@@ -122,7 +122,8 @@ def check(ctx):
         ctx.cov["scenarios_replayed"] += len(scns)
         for k, v in info.get("arm_hits", {}).items():
             arms[k] = arms.get(k, 0) + v
-    if not all(arms.get(k) for k in ("point_completes_a_drawdown", "drawdown_in_progress", "max_tie")):
+    # (runs cut short by a violation exercise fewer arms: vacuity is only judged on a clean run)
+    if not ctx.violations and not all(arms.get(k) for k in ("point_completes_a_drawdown", "drawdown_in_progress", "max_tie")):
         raise vlib.ToolError("vacuous run: an arm of the drawdown decomposition was never exercised: %s" % arms)
     # impl -> spec: seeded random curves recorded from the implementation, validated by TLC
     out = ctx.path("trace_random.ndjson")
